@@ -1,5 +1,7 @@
 import VlsModel.Model.Velocity
 import VlsModel.Gen.FnVelocity
+import VlsModel.Gen.FnPersistModel
+import VlsModel.Gen.FnApprover
 import VlsModel.Lemmas.FnGen
 /-
 C12 — the hand-written model `Model/Velocity.lean` proved equal to the function bodies that
@@ -149,4 +151,161 @@ theorem C12_fn_insert (g : VelocityControl) (now amt : Nat) :
           Nat.zero_lt_succ, if_true, List.set_cons_zero]
         split <;> simp_all [toRes, toVC]
 
+
+/-- **C12_fn_clear**: `VelocityControl::clear` (every bucket set to 0, nothing else touched) is the model's `VC.clear`. -/
+theorem C12_fn_clear (g : VelocityControl) : toVC g.clear = (toVC g).clear := rfl
+
+/-! ## The persisted form of a control (vls-persist/src/model.rs), translated from the source on every run
+
+`impl From<CoreVelocityControl> for VelocityControl` is what `NodeStateEntry::from` applies to both controls of the node
+before they are written, `impl From<VelocityControl> for CoreVelocityControl` what `get_nodes` applies to the stored entry
+before `NodeState::restore` / `Node::new_full` hand it to `update_spec`. -/
+section PersistedControl
+open VlsModel.Gen
+
+/-- the control of velocity.rs seen as the `CoreVelocityControl` of model.rs (the same Rust struct under its `use … as` name;
+    both generated structures are read from `vls-core/src/util/velocity.rs`) -/
+def toCore (g : VelocityControl) : FnPersistModel.CoreVelocityControl :=
+  { start_sec := g.start_sec, bucket_interval := g.bucket_interval, buckets := g.buckets, limit := g.limit }
+def ofCore (c : FnPersistModel.CoreVelocityControl) : VelocityControl :=
+  { start_sec := c.start_sec, bucket_interval := c.bucket_interval, buckets := c.buckets, limit := c.limit }
+
+/-- **C12_fn_persisted_control_roundtrip**: `restore ∘ persist = id` for a velocity control, on the conversions as they are
+    in the source now — no field is dropped, defaulted or swapped in either direction, so the control a restarted signer
+    hands to `update_spec` is the model control `toVC g` the running signer had (start, bucket interval, every bucket,
+    limit): the amount already counted survives.  (The other direction: what is read back and written again is the same
+    entry.) -/
+theorem C12_fn_persisted_control_roundtrip (g : VelocityControl) (e : FnPersistModel.VelocityControl) :
+    FnPersistModel.CoreVelocityControl.«from» (FnPersistModel.VelocityControl.«from» (toCore g)) = toCore g ∧
+    toVC (ofCore (FnPersistModel.CoreVelocityControl.«from» (FnPersistModel.VelocityControl.«from» (toCore g)))) = toVC g ∧
+    FnPersistModel.VelocityControl.«from» (FnPersistModel.CoreVelocityControl.«from» e) = e :=
+  ⟨rfl, rfl, rfl⟩
+
+/-- the persisted entry carries the four numbers of the model control, field by field -/
+theorem C12_fn_persisted_control_fields (g : VelocityControl) :
+    let e := FnPersistModel.VelocityControl.«from» (toCore g)
+    e.start_sec = (toVC g).start ∧ e.bucket_interval = (toVC g).bi ∧ e.buckets = (toVC g).buckets ∧ e.limit = (toVC g).limit :=
+  ⟨rfl, rfl, rfl, rfl⟩
+
+/-- non-vacuity: a control with counted amounts comes back with them -/
+example : toVC (ofCore (FnPersistModel.CoreVelocityControl.«from» (FnPersistModel.VelocityControl.«from»
+    (toCore ⟨7200, 300, [5, 0, 900], 1000⟩)))) = ⟨7200, 300, [5, 0, 900], 1000⟩ := rfl
+end PersistedControl
+
+
+
+/-! ## `impl Approve for VelocityApprover` (vls-protocol-signer/src/approver.rs), translated from the source on every run
+
+Target list `translate/fn_targets/Approver.b1012.json`.  The approver's control is a `VelocityControl` of velocity.rs: the
+translator emits that struct and `insert` / `velocity` / `clear` again inside `Gen.FnApprover` (functions of another file are
+translated on demand), so the three ties are re-proved here for this copy — the same source text, the same proofs.
+Externals: the clock (`clock.now().as_secs()`), `Invoice::amount_milli_satoshis`, the delegate's three answers. -/
+section Approver
+open VlsModel.Gen
+open VlsModel.Gen.FnApprover (VelocityApprover)
+
+def toVCa (g : FnApprover.VelocityControl) : VC :=
+  { start := g.start_sec, bi := g.bucket_interval, buckets := g.buckets, limit := g.limit }
+
+def toResA (r : Rs.M (FnApprover.VelocityControl × Bool)) : Option (VC × Bool) :=
+  match r with
+  | .ok (g, b) => some (toVCa g, b)
+  | .error _ => none
+
+theorem C12_fn_appr_shift_loop (n : Nat) : ∀ s : FnApprover.VelocityControl,
+    Rs.iter (fun s : FnApprover.VelocityControl => { s with buckets := 0 :: s.buckets }) n s
+      = { s with buckets := List.replicate n 0 ++ s.buckets } := by
+  induction n with
+  | zero => intro s; rfl
+  | succ k ih => intro s; simp [Rs.iter, ih, List.replicate_succ', List.append_assoc]
+
+/-- the copy of `insert` inside `Gen.FnApprover` is the model's `VC.insert` (proof of `C12_fn_insert`) -/
+theorem C12_fn_appr_insert (g : FnApprover.VelocityControl) (now amt : Nat) :
+    toResA (g.insert now amt) = (toVCa g).insert now amt := by
+  unfold FnApprover.VelocityControl.insert VC.insert
+  by_cases h1 : now < g.start_sec
+  · simp [toVCa, h1, Rs.usub, Nat.not_le.mpr h1, toResA, Rs.overflow]
+  · by_cases h2 : g.bucket_interval = 0
+    · simp [toVCa, h1, h2, Rs.usub, Nat.le_of_not_lt h1, Rs.udiv, toResA, Rs.panic]
+    · have hle : g.start_sec ≤ now := Nat.le_of_not_lt h1
+      simp only [toVCa, h1, h2, Rs.usub, hle, Rs.udiv, Rs.urem, Nat.min_le_left, if_true, if_false, false_or,
+        Rs.bind_ok, Rs.pure_eq]
+      rw [Rs.foldlM_ok _ (fun s : FnApprover.VelocityControl => { s with buckets := 0 :: s.buckets })
+        (by intro s x; simp [Rs.vecInsert_zero])]
+      simp only [Rs.range_length, C12_fn_appr_shift_loop, Rs.bind_ok, h2, if_false, Nat.mod_le, if_true, Nat.sub_zero]
+      rw [Rs.vecResize_le _ _ _ (Nat.sub_le _ _)]
+      have hB : ∀ k, shift g.buckets k = List.replicate k 0 ++ g.buckets.take (g.buckets.length - k) := fun _ => rfl
+      simp only [hB]
+      generalize List.replicate _ 0 ++ List.take _ g.buckets = B
+      have hv : ∀ (a c : Nat) (b : List Nat) (l : Nat),
+          (FnApprover.VelocityControl.velocity { start_sec := a, bucket_interval := c, buckets := b, limit := l })
+            = (VC.velocity { start := a, bi := c, buckets := b, limit := l }) := fun _ _ _ _ => rfl
+      have hs : ∀ a b, Rs.usatAdd Rs.U64_MAX a b = U64.satAdd a b := fun _ _ => rfl
+      simp only [hv, hs]
+      cases B with
+      | nil =>
+        simp only [Rs.index, List.getElem?_nil, Rs.panic, Rs.bind_err]
+        split <;> simp_all [toResA, toVCa]
+      | cons x xs =>
+        simp only [Rs.index, Rs.setIndex, List.getElem?_cons_zero, Rs.bind_ok, Rs.pure_eq, List.length_cons,
+          Nat.zero_lt_succ, if_true, List.set_cons_zero]
+        split <;> simp_all [toResA, toVCa]
+
+theorem C12_fn_appr_clear (g : FnApprover.VelocityControl) : toVCa g.clear = (toVCa g).clear := rfl
+
+/-- result of a translated `approve_*` compared with the model's `VC.approve`: (control afterwards, approved) -/
+def toApp {Clock A : Type} (r : Rs.M (VelocityApprover Clock A × Bool)) : Option (VC × Bool) :=
+  match r with
+  | .ok (s, b) => some (toVCa s.control, b)
+  | .error _ => none
+
+variable {Clock A Invoice Duration PaymentHash Transaction TxOut : Type}
+  (now : Clock → Duration) (secs : Duration → Nat) (self : VelocityApprover Clock A)
+
+/-- **C12_fn_approve_invoice**: `VelocityApprover::approve_invoice` as it is in the source now is the model's `VC.approve`
+    on the approver's control, at the clock's second, with the invoice's amount and the delegate's answer: approved
+    automatically iff the control accepts; otherwise the delegate is asked, and exactly a manual approval clears the
+    control; it fails (panics) exactly when the control's `insert` does.  (`C12_approver` is proved on `VC.approve`.) -/
+theorem C12_fn_approve_invoice (amt : Invoice → Nat) (dlg : A → Invoice → Bool) (inv : Invoice) :
+    toApp (VelocityApprover.approve_invoice now secs amt dlg self inv)
+      = ((toVCa self.control).approve (secs (now self.clock)) (amt inv) (dlg self.delegate inv)).map
+          (fun (v, ok, _) => (v, ok)) := by
+  unfold VelocityApprover.approve_invoice VC.approve
+  rw [← C12_fn_appr_insert]
+  cases hins : FnApprover.VelocityControl.insert self.control (secs (now self.clock)) (amt inv) with
+  | error e => simp [toResA, toApp, bind, Except.bind]
+  | ok res =>
+    obtain ⟨c1, ok⟩ := res
+    cases ok <;> cases hd : dlg self.delegate inv <;>
+      simp [toResA, toApp, hd, bind, Except.bind, pure, Except.pure, C12_fn_appr_clear]
+
+/-- **C12_fn_approve_keysend**: the same for `approve_keysend` (amount given directly). -/
+theorem C12_fn_approve_keysend (dlg : A → PaymentHash → Nat → Bool) (ph : PaymentHash) (amt : Nat) :
+    toApp (VelocityApprover.approve_keysend now secs dlg self ph amt)
+      = ((toVCa self.control).approve (secs (now self.clock)) amt (dlg self.delegate ph amt)).map
+          (fun (v, ok, _) => (v, ok)) := by
+  unfold VelocityApprover.approve_keysend VC.approve
+  rw [← C12_fn_appr_insert]
+  cases hins : FnApprover.VelocityControl.insert self.control (secs (now self.clock)) amt with
+  | error e => simp [toResA, toApp, bind, Except.bind]
+  | ok res =>
+    obtain ⟨c1, ok⟩ := res
+    cases ok <;> cases hd : dlg self.delegate ph amt <;>
+      simp [toResA, toApp, hd, bind, Except.bind, pure, Except.pure, C12_fn_appr_clear]
+
+/-- non-vacuity: over the limit and approved by hand — the control comes back cleared -/
+example : toApp (VelocityApprover.approve_keysend (Clock := Nat) (A := Bool) (PaymentHash := Unit) (Duration := Nat)
+      (fun c => c) (fun d => d) (fun d _ _ => d) ⟨10, ⟨0, 300, [900, 0], 1000⟩, true⟩ () 200)
+    = some (⟨0, 300, [0, 0], 1000⟩, true) := by decide
+
+/-- **C12_fn_approve_onchain**: on-chain spends go to the delegate alone — the approver's control is neither consulted nor
+    changed (the statement of C12 is about the node's fee control for L1, not this one); `set_control` replaces the control
+    as a whole (`control()`, its getter, is named like the field: not emitted by the translator). -/
+theorem C12_fn_approve_onchain (dlg : A → Transaction → List TxOut → List Nat → Bool) (tx : Transaction) (po : List TxOut)
+    (ui : List Nat) (c : FnApprover.VelocityControl) :
+    VelocityApprover.approve_onchain dlg self tx po ui = dlg self.delegate tx po ui ∧
+    (VelocityApprover.set_control self c).control = c ∧ (VelocityApprover.set_control self c).delegate = self.delegate :=
+  ⟨rfl, rfl, rfl⟩
+
+end Approver
 end VlsModel.Props.C12Fn
